@@ -1068,20 +1068,20 @@ NT_VALUE = ("non-trivial = AST depth >= 3 with a non-commutative operator nested
 SUBCHECKS = [
     SubCheck("value_numpy",
              strategy=lambda: scalar_cases(G.PROFILE_NUMPY, routes=("call", "call", "get_function", "copy", "kwargs")),
-             check=check_value, mode="pure", budget={"quick": 1400, "thorough": 40000},
+             check=check_value, mode="pure", budget={"quick": 1200, "thorough": 40000},
              shards={"quick": 6, "thorough": 12}, rule=NT_VALUE),
     SubCheck("value_numba",
              strategy=lambda: scalar_cases(G.PROFILE_FULL, routes=("get_function", "get_function", "single_arg"),
                                            indexed=True, layouts=("flat", "flat", "scalar", "mixed", "outer")).filter(
                  lambda c: not (c["route"] == "single_arg" and any(v["n"] for v in c["vars"]))),
-             check=check_value_numba, mode="jit", budget={"quick": 200, "thorough": 6000},
+             check=check_value_numba, mode="jit", budget={"quick": 180, "thorough": 6000},
              shards={"quick": 3, "thorough": 12}, rule=NT_VALUE),
     SubCheck("value_numba_nojit",
              strategy=lambda: scalar_cases(G.PROFILE_FULL, routes=("get_function", "get_function", "single_arg"),
                                            indexed=True, layouts=("flat", "flat", "scalar", "mixed", "outer")).filter(
                  lambda c: not (c["route"] == "single_arg" and any(v["n"] for v in c["vars"]))),
-             check=check_value_numba, mode="nojit", budget={"quick": 300, "thorough": 10000},
-             shards={"quick": 1, "thorough": 4},
+             check=check_value_numba, mode="nojit", budget={"quick": 240, "thorough": 10000},
+             shards={"quick": 2, "thorough": 4},
              rule=NT_VALUE + " (numba backend's code generation executed with NUMBA_DISABLE_JIT=1: breadth)"),
     SubCheck("single_arg",
              strategy=lambda: scalar_cases(G.PROFILE_NUMPY, indexed=False, routes=("single_arg",),
@@ -1096,7 +1096,7 @@ SUBCHECKS = [
              shards={"quick": 1, "thorough": 4},
              rule="non-trivial = >= 2 components, one of depth >= 2 with a non-commutative operator"),
     SubCheck("field_from_expression", strategy=field_cases, check=check_field, mode="pure",
-             budget={"quick": 400, "thorough": 10000}, shards={"quick": 2, "thorough": 4},
+             budget={"quick": 320, "thorough": 10000}, shards={"quick": 2, "thorough": 4},
              rule="non-trivial = some component of depth >= 2 depending on a coordinate"),
     SubCheck("derivatives", strategy=derivative_cases, check=check_derivative, mode="pure",
              budget={"quick": 130, "thorough": 3000}, shards={"quick": 2, "thorough": 8},
@@ -1114,3 +1114,6 @@ SUBCHECKS = [
              budget={"quick": 200, "thorough": 5000}, shards={"quick": 1, "thorough": 2},
              rule="non-trivial = depth >= 2 depending on a field"),
 ]
+
+for _s in SUBCHECKS:
+    _s.time_limit = {"quick": 110, "thorough": 1500}
